@@ -256,6 +256,14 @@ func c09Run(t *testing.T, st *vstat.Stats, p c09Plan) (v *viol) {
 		// the genuine message has been processed now: the same board entry with an altered payload (identifier, sender
 		// and signature untouched) is still a message whose signature does not verify, whatever the node remembers
 		afterGenuine := kvSnapshot(nd)
+		// what the refused messages left in the running node shows when the next accepted message is stored: the rounds on
+		// disk are the rounds that were there, nothing a refused message named has joined them
+		for id := range roundsOf(afterGenuine) {
+			if _, was := roundsOf(before)[id]; !was && id != step.Msg.DkgRoundID {
+				v = violf("refused-message-left-a-round-behind", "state %q: after refused mutants (%v) of %s and the accepted genuine message the node's state holds a round %q that no accepted message ever named", step.State, kinds, step.Msg.Event, clip(id, 70))
+				return
+			}
+		}
 		for _, mu := range p.Muts {
 			switch mu.Kind {
 			case "flip-struct", "flip-body", "flip-digit", "insert", "delete", "append", "truncate-data", "empty-data":
